@@ -62,6 +62,7 @@ def main(ck, tier, w):
             ck.distinct(tuple(lay) + (obs['start'], obs['end'], obs['decoy']))
         for probs, r, d, coin, h0 in outs:
             ck.evals()
+            ck.traces()
             ck.sample({'layout': obs['lay'], 'range': [obs['start'], obs['end']], 'decoys': obs['decoy'], 'coin': coin,
                        'first_height': h0, 'file_numbers': {str(k): v for k, v in d.fileno.items()}})
             if probs:
@@ -99,16 +100,17 @@ def main(ck, tier, w):
                                fileno={f: f * 3 + 1 for f in range(nf)} if nf > 8 else None)
         tr = w.sub('trace')
         r = layout.run_csv(w, d, 'bitcoin', 0, None, trace=tr)
-        v = tracecheck.validate(tr)
         probs = []
         if r.rc != 0:
             probs.append('exit status %d: %s' % (r.rc, r.stderr[-200:]))
         else:
             probs += layout.compare_csv(r, layout.expected_csv(blocks, range(n), 'bitcoin'), 0, n - 1)
+        return j, probs, r, tr
+    ran = chains.pmap(tjob, jobs, 8)
+    verdicts = tracecheck.validate_many([x[3] for x in ran], batch=2)
+    for (j, probs, r, tr), v in zip(ran, verdicts):
         if not v['accepted']:
             probs.append('trace rejected: %s at event %s %s' % (v['reason'], v['rejected_at'], v['event'] or ''))
-        return j, probs, r, v
-    for j, probs, r, v in chains.pmap(tjob, jobs, 8):
         ck.traces()
         ck.evals()
         ck.distinct(('T',) + j[:3])
